@@ -41,7 +41,21 @@ func stream(c *run.Ctx, name string, n int, opt ref.GenOpt, user []*ref.Fun, mut
 			}
 			pc := &ProgCase{ID: id, Src: ref.Render(e), E: e, Env: env, User: us}
 			c.Input(pc.Src)
-			o := RunProg(pc)
+			var more []*bridge.Env
+			if i%3 == 0 {
+				// the same compiled code on further conforming environments:
+				// other values, other object layouts
+				for k := 1; k <= 2; k++ {
+					_, env2 := stdGen(c, name+"/env", i*4+k, opt, us)
+					more = append(more, env2)
+				}
+			}
+			all := RunProgMulti(pc, more)
+			o := all[0]
+			for _, o2 := range all[1:] {
+				c.Count("further_environments", 1)
+				or(c, o2)
+			}
 			if o.Accepted() && nontrivial(e) {
 				c.Distinct(progKey(pc.Src))
 			}
@@ -487,9 +501,79 @@ func overloadCases() []*ProgCase {
 	return out
 }
 
+// incrementalRegistration: overloads registered BETWEEN compilations on one
+// engine; every compilation must follow the rules for the table as it is then.
+func incrementalRegistration(c *run.Ctx) {
+	all := overloadCases()
+	if len(all) == 0 {
+		return
+	}
+	// the programs and the full overload set of the first registration order
+	var progs []*ProgCase
+	for _, pc := range all {
+		if len(pc.ID) > 11 && pc.ID[:11] == "overload/0/" {
+			progs = append(progs, pc)
+		}
+	}
+	set := progs[0].User
+	for k := 0; k < c.Pick(40, 400); k++ {
+		if !c.Mine(k) {
+			continue
+		}
+		c.Case(fmt.Sprintf("incremental/%d", k), func() {
+			r := c.Rng("incremental", k)
+			order := r.Perm(len(set))
+			sess := bridge.NewSession(nil)
+			var table []*ref.Fun
+			cuts := []int{1 + r.Intn(4), 5 + r.Intn(4), len(set)}
+			done := 0
+			for _, cut := range cuts {
+				for ; done < cut && done < len(set); done++ {
+					f := set[order[done]]
+					sess.Register(f)
+					table = append(table, f)
+				}
+				ft := funTable(table)
+				for pi, pc := range progs {
+					if (pi+k)%3 != 0 {
+						continue
+					}
+					e := pc.E.Clone()
+					want, werr := ref.Check(e, pc.Env.T, ft)
+					cc, cerr := sess.Compile(pc.Src, pc.Env.TypeEnv(), bridge.Closure)
+					c.Count("verdicts_compared", 1)
+					what := fmt.Sprintf("after registering %d of %d overloads on one engine, %q", done, len(set), pc.Src)
+					if (werr == nil) != (cerr == nil) {
+						c.Violation("stale-resolution", fmt.Sprintf("%s: accepted=%v, the rules for the current table say %v (%v / %v)", what, cerr == nil, werr == nil, cerr, werr), nil)
+						continue
+					}
+					if cerr == nil {
+						got, _ := bridge.FromType(cc.Type)
+						if got == nil || !ref.Eq(got, want) {
+							c.Violation("stale-resolution", fmt.Sprintf("%s: inferred %s, the rules for the current table assign %s", what, tyCanon(got), want.Canon()), nil)
+							continue
+						}
+						// and the chosen overload is the one the rules choose (each returns its own tag)
+						ev := &ref.Evaluator{Env: pc.Env.V, FT: ft}
+						wo := ev.Eval(e)
+						res := cc.Exec(pc.Env.ValEnv())
+						if wo.V != nil && res.Class == bridge.OValue {
+							if rv, err := bridge.FromVal(res.Val, nil); err == nil && !ref.Same(rv, wo.V) {
+								c.Violation("stale-resolution", fmt.Sprintf("%s: evaluates to %s, the overload the rules choose gives %s", what, ref.Dump(rv), ref.Dump(wo.V)), nil)
+							}
+						}
+					}
+				}
+			}
+			c.Distinct(fmt.Sprintf("incremental/%v", order))
+		})
+	}
+}
+
 func init() {
 	run.Register(&run.Spec{
 		ID: "C05", Run: func(c *run.Ctx) {
+			incrementalRegistration(c)
 			user := ref.UserFuns()
 			opt := ref.GenOpt{MaxDepth: 5, PFail: 0.02, PSugar: 0.6, PBoundary: 0.1, PGroup: 0.03, UserFuns: true}
 			both := func(c *run.Ctx, o *ProgObs) { oracleC05(c, o); oracleC02(c, o) }
@@ -502,7 +586,7 @@ func init() {
 		},
 		Level: "exploration",
 		Rule: "type-directed programs (accept side) and their type-breaking mutations (reject side: foreign sub-term, dropped / added / swapped argument, renamed field, composite or foreign map key, heterogeneous element, empty literal where a typed one is needed, reserved / undefined identifier, wrong index type), " +
-			"harness overload sets registered in every permutation (mono vs poly, repeated variables, object parameters in permuted field order, shared parameter nodes, bottom-typed arguments, key-polymorphic maps, non-ground results), dynamic callees; " +
+			"harness overload sets registered in every permutation (mono vs poly, repeated variables, object parameters in permuted field order, shared parameter nodes, bottom-typed arguments, key-polymorphic maps, non-ground results), dynamic callees; the same overload sets registered incrementally between compilations on one engine; " +
 			"monitor = accept/reject and inferred type compared with the reference checker (structural, fields by name), and accepted programs are executed so that a rejection arriving only at run time is seen as an INTERNAL outcome. distinct = distinct source text",
 		Assume:    []string{"the reference checker encodes the typing rules stated in the property and README (DESIGN.md §2.5)"},
 		MinEvents: 5000, EventKey: "verdicts_compared",
